@@ -1,6 +1,7 @@
 package sim
 
 import (
+	"bufio"
 	"bytes"
 	"encoding/json"
 	"fmt"
@@ -335,6 +336,54 @@ func (e *streamExec) prepareToken() bool {
 			}
 		}
 	}
+	// the sources callers actually hand over (standard-library readers a decoder may recognise by
+	// type): the same bytes give the same token and CID; followed by bytes that do not belong to
+	// the token they give what the buffered call gives for the whole input
+	tail := []byte{0x00}
+	if e.p.API == "dagjson" {
+		tail = []byte("{}")
+	}
+	for _, extra := range [][]byte{nil, tail, ref} {
+		whole := append(append([]byte{}, ref...), extra...)
+		wantRec, wantErr := e.refRec, false
+		if extra != nil {
+			btk, bc, berr := e.decodeToken(nil, append([]byte{}, whole...))
+			wantErr = berr != nil || isNilTok(btk)
+			if !wantErr {
+				wantRec = []string{cidHex(bc.Bytes()) + "=" + recOf(btk).Content()}
+			}
+		}
+		srcs := []struct {
+			name string
+			r    io.Reader
+		}{
+			{"bytes.Reader", bytes.NewReader(append([]byte{}, whole...))},
+			{"bytes.Buffer", bytes.NewBuffer(append([]byte{}, whole...))},
+			{"strings.Reader", strings.NewReader(string(whole))},
+			{"bufio.Reader", bufio.NewReaderSize(bytes.NewReader(append([]byte{}, whole...)), 16)},
+			{"io.LimitedReader", io.LimitReader(bytes.NewReader(append(append([]byte{}, whole...), 0xff, 0xff)), int64(len(whole)))},
+		}
+		for _, src := range srcs {
+			var stk token.Token
+			var sc cid.Cid
+			var serr error
+			if guard(o, "decode-reader:"+e.p.API, func() { stk, sc, serr = e.decodeToken(src.r, nil) }) {
+				return false
+			}
+			o.Eval("C18")
+			o.Sig("C18", "token", e.p.API, e.p.Typed, "read", src.name, len(extra) > 0, serr == nil)
+			attrs := map[string]string{"api": e.p.API, "source": src.name}
+			gotErr := serr != nil || isNilTok(stk)
+			switch {
+			case gotErr != wantErr:
+				o.Violate("C18", "std-reader-differs", fmt.Sprintf("reading %d token bytes followed by %d others from a %s: error=%v, the buffered call on the same bytes: error=%v", len(ref), len(extra), src.name, gotErr, wantErr), attrs)
+			case !gotErr:
+				if rec := cidHex(sc.Bytes()) + "=" + recOf(stk).Content(); len(wantRec) != 1 || rec != wantRec[0] {
+					o.Violate("C18", "std-reader-differs", fmt.Sprintf("reading from a %s gives another token or CID than the buffered call on the same bytes", src.name), attrs)
+				}
+			}
+		}
+	}
 	e.wcalls, e.wsizes = sw.calls, sw.sizes
 	if e.p.API != "dagjson" {
 		if env, err := cbDecodeAll(ref); err == nil && env.Major == 4 && len(env.Kids) == 2 {
@@ -623,6 +672,18 @@ func (e *streamExec) prepareContainer() bool {
 	if !ok || !bytes.Equal(sref, ref) {
 		o.Violate("C18", "write-bytes-differ", "stream container write differs from the buffered write (after normalising entry order)", map[string]string{"api": e.p.API})
 	}
+	// a bytes.Buffer that already holds a frame prefix: the container is appended, whole
+	bb := bytes.NewBuffer([]byte{0xca, 0xfe, 0x00})
+	if guard(o, "container.ToWriter:"+e.p.API, func() { _, err = e.writeContainer(bb) }) {
+		return false
+	}
+	o.Eval("C18")
+	o.Sig("C18", "container", e.p.API, "write", "bytes.Buffer", len(e.sealed))
+	if err != nil {
+		o.Violate("C18", "write-faultfree-failed", fmt.Sprintf("stream write into a bytes.Buffer that holds 3 bytes failed: %v", err), map[string]string{"api": e.p.API, "sink": "bytes.Buffer"})
+	} else if bref, _, ok := e.normalise(bb.Bytes()[3:]); !bytes.Equal(bb.Bytes()[:3], []byte{0xca, 0xfe, 0x00}) || !ok || !bytes.Equal(bref, ref) {
+		o.Violate("C18", "write-bytes-differ", "stream container write into a bytes.Buffer that already holds bytes does not append the container of the buffered write", map[string]string{"api": e.p.API, "sink": "bytes.Buffer"})
+	}
 	e.wcalls, e.wsizes = sw.calls, sw.sizes
 	// (the number of write calls a base64 writer issues depends on the order in which the
 	// Writer's map hands out entries of different sizes: it is kept out of the event log)
@@ -702,7 +763,7 @@ func (e *streamExec) step(s *SStep) {
 		if len(kinds) == 0 {
 			kinds = []string{"err", "err_n", "eof", "err_weof"}
 			if len(e.ref) < 3000 {
-				kinds = append(kinds, "err_wueof")
+				kinds = append(kinds, "err_wueof", "err_n1")
 			}
 		}
 		for k := s.Lo; k <= hi; k++ {
@@ -898,7 +959,24 @@ func (e *streamExec) readOnce(chunks []int, eofData bool, f ReadFault) {
 		}
 		return
 	}
-	// success although a fault fired: only the CAR cut between two blocks is exempt
+	// success although a fault fired: only the CAR cut between two blocks is exempt ...
+	if f.Kind == "err_n1" {
+		// ... and the transient error that came together with the bytes asked for, after which the
+		// source delivered everything: the callee saw every byte, so a success is tolerated (a
+		// deliberate, narrow relaxation: reading helpers drop an error that comes with a satisfied
+		// request), but only a success that is exactly the buffered result, CID included
+		o.Probe("transient_read_error_survived")
+		if strings.Join(recs, ";") != strings.Join(e.refRec, ";") {
+			o.Violate("C18", "stream-read-differs", fmt.Sprintf("%s %s: a read error that came with its bytes at offset %d was survived, with another result than the buffered decode", e.p.Art, e.p.API, f.At), attrs)
+		}
+		if e.p.API == "sealed" {
+			o.Eval("C08")
+			if !bytes.Equal(gotCID.Bytes(), harnessCID(e.ref)) {
+				o.Violate("C08", "stream-unseal-cid", "FromSealedReader survived a transient read error and reports a CID that is not the hash of the bytes read", nil)
+			}
+		}
+		return
+	}
 	if f.Kind == "eof" && strings.HasPrefix(e.p.API, "car") {
 		binCut := f.At
 		clean := true
